@@ -1,7 +1,23 @@
 """C13 — generated arithmetic blocks compute the arithmetic they name; bit helpers."""
 import itertools
 
-from common import cg, c_to_json, canon, canon_c, cdiff, call, simulate, free_nodes
+import gen
+
+from common import cg, c_to_json, canon, canon_c, cdiff, call, free_nodes
+from common import simulate as _simulate
+
+
+class Unsimulable(Exception):
+    pass
+
+
+def simulate(c, asg):
+    """a generated block must be a function of its declared inputs: a free node outside `asg` is a violation"""
+    try:
+        return _simulate(c, asg)
+    except KeyError as e:
+        raise Unsimulable(str(e)) from None
+
 from framework import Prop, run_main
 
 
@@ -140,6 +156,12 @@ class P(Prop):
                 return
 
     def search(self, n):
+        try:
+            self.search_(n)
+        except Unsimulable as e:
+            self.fail("search", "generated-block-has-free-node", f"a generated block has the undriven node {e}: its outputs are not a function of its inputs", {"fn": "history"})
+
+    def search_(self, n):
         c = cg.logic.half_adder()
         self.check_lint(c, {"fn": "half_adder"})
         for x, y in itertools.product([False, True], repeat=2):
@@ -161,6 +183,23 @@ class P(Prop):
                 self.check_mux(w)
             self.check_popcount(w)
         # call history: a circuit obtained earlier and edited by the caller must not leak into later calls
+        gen.poison_generators(self.rng)
+        self.stats.bump("history:poisoned-generator-results")
+        self.check_lint(cg.logic.half_adder(), {"fn": "half_adder"})
+        ha = cg.logic.half_adder()
+        fa = cg.logic.full_adder()
+        self.check_lint(fa, {"fn": "full_adder"})
+        if ha.inputs() != {"x", "y"} or ha.outputs() != {"c", "s"} or fa.inputs() != {"x", "y", "cin"} or fa.outputs() != {"cout", "s"}:
+            self.fail("search", "adder-cell-io", "half/full adder io changed after an earlier result was edited", {"fn": "full_adder"})
+        else:
+            for x, y in itertools.product([False, True], repeat=2):
+                v = simulate(ha, {"x": x, "y": y})
+                if (v["s"], v["c"]) != (x != y, x and y):
+                    self.fail("search", "half_adder-wrong", f"{x},{y} after an earlier result was edited", {"fn": "half_adder"})
+            for x, y, z in itertools.product([False, True], repeat=3):
+                v = simulate(fa, {"x": x, "y": y, "cin": z})
+                if (v["s"], v["cout"]) != ((x + y + z) % 2 == 1, x + y + z >= 2):
+                    self.fail("search", "full_adder-wrong", f"{x},{y},{z} after an earlier result was edited", {"fn": "full_adder"})
         for w in (1, 2, 3):
             for f, args, chk in ((cg.logic.adder, (w, False, True), lambda: self.check_adder(w, False, True)),
                                  (cg.logic.adder, (w, True, False), lambda: self.check_adder(w, True, False)),
